@@ -126,6 +126,16 @@ def run_case(case):
     # bit k <-> source with index k
     by_bit = [srcs[s] for s in first]
     bit_trig = [trig[s] for s in first]
+    alias = {}
+    if n >= 2 and rng.random() < 0.15:
+        # several sources watch one and the same line (there is no both-edges mode: a rise source and a fall source
+        # sharing their input signal is how one gets it); each keeps its own trigger mode
+        for _ in range(rng.choice([1, 1, 2])):
+            a_, b_ = rng.sample(range(n), 2)
+            if a_ not in alias and b_ not in alias and a_ not in alias.values() or b_ == a_:
+                by_bit[b_].i = by_bit[a_].i
+                alias[b_] = a_
+        mon.count("sources_sharing_their_input_line", len(alias))
     st = {"prev_i": [0] * n, "pending": 0, "nontrivial": False}
     mask = (1 << n) - 1
     burst = {"i": 0, "clear": 0, "enable": 0}
@@ -140,6 +150,8 @@ def run_case(case):
                     burst[key] = rng.choice([bits(rng, n), bits(rng, n) & bits(rng, n), mask, 0,
                                              (1 << rng.randrange(n)) if n else 0])
             i_vec, clear, enable = burst["i"], burst["clear"], burst["enable"]
+            for b_, a_ in alias.items():
+                i_vec = (i_vec & ~(1 << b_)) | (((i_vec >> a_) & 1) << b_)
             for k in range(n):
                 ctx.set(by_bit[k].i, (i_vec >> k) & 1)
             if n:
